@@ -7,10 +7,11 @@ the set" idiom -- with an interpreter `exec`.  harness/props/c09.py parses the C
 `exec refSearch = checkIsolated` (Lemmas/IsolationProg.lean) -- so the theorems about `checkIsolated` are theorems about the
 program text that is compiled, and an edit of the C++ (loop bound, `== 1` test, a missing `insert`, another array) breaks a proof.
 
-Also here: the token alphabets of the Python-side skeletons regenerated from wntr/sim/core.py by `ast`
-(which registry generators `_initialize_internal_graph`, `_get_isolated_junctions_and_links` and the head of `run_sim` iterate over,
-the statement skeleton of `_update_internal_graph` / `_get_isolated_junctions_and_links`, the order of the calls in the loop body
-of `run_sim`) and their reference values -- the ones Model/Isolation.lean and Model/IsolationRun.lean transliterate.
+Also here, regenerated from wntr/sim/core.py by `ast`: `_update_internal_graph` and `_get_isolated_junctions_and_links` as statement
+trees (`PStmt`, `IStmt`) with interpreters `execP`, `execI` proved equal to `updateGraph`, `getIsolated`; and token skeletons
+(which registry generators `_initialize_internal_graph` and the head of `run_sim` iterate over, the statements of
+`_initialize_internal_graph` / `_get_csr_data_index`, the order of the calls in the loop body of `run_sim`) with their reference
+values -- the ones Model/Isolation.lean and Model/IsolationRun.lean transliterate.
 Import-free apart from the model.
 -/
 import WntrModel.Model.Isolation
